@@ -243,7 +243,7 @@ void llb_buildengine_task_is_complete(llb_task_interface_t ti,
   auto coreti = reinterpret_cast<TaskInterface*>(&ti);
   std::vector<uint8_t> result(value->length);
   memcpy(result.data(), value->data, value->length);
-  coreti->complete(std::move(result));
+  coreti->complete(std::move(result), force_change);
 }
 
 llb_task_t* llb_task_create(llb_task_delegate_t delegate) {
